@@ -224,7 +224,7 @@ PROPS = {
                  'register_helper: the function registered under an id is the one most recently registered for it; other ids keep theirs'),
             Part('clif', lambda h: h == 'clif_call', lambda h, c, info=None: 'ensures:' in desc(c),
                  'Cranelift CALL: helper called once with (r1..r5), result in r0, unknown id / non-helper call => compile error'),
-            Part('jit', lambda h: h == 'arm_call_helper' or h.startswith('prologue_'), lambda h, c, info=None: 'ensures:' in desc(c),
+            Part('jit', lambda h: h in ('arm_call_helper', 'arm_call_local') or h.startswith('prologue_'), lambda h, c, info=None: 'ensures:' in desc(c) and (h != 'arm_call_local' or 'rsp modulo 16' in desc(c)),
                  'JIT CALL imm against the x86 semantics: callee = function registered under imm as u32, (r1..r5) in rdi,rsi,rdx,rcx,r8, r6-r10 in callee-saved registers, unregistered id => compile error; rsp is 0 modulo 16 inside the generated code (prologue) and stays so across local calls'),
         ],
         level_text='Contract of the CALL arm against a recording helper, for all ids, arguments and depths.',
